@@ -165,6 +165,13 @@ impl ClientVisibility {
             }
             VisibilityList::Whitelist(list) => {
                 if visible {
+                    // If the entity was removed in this tick, then undo it.
+                    // The client still has the entity, so it's not newly added.
+                    if self.removed.remove(&entity) {
+                        list.insert(entity, WhitelistInfo::Visible);
+                        return;
+                    }
+
                     // Similar to blacklist removal, we don't just add the entity to the list.
                     // Instead we mark it as `WhitelistInfo::JustAdded` and then set it to
                     // 'WhitelistInfo::Visible' in `Self::update`.
